@@ -27,8 +27,13 @@ class State:
 
 
 class Explorer:
-    def __init__(self, menu, table="d", max_states=2_000_000, columns=None, roles=None):
+    def __init__(self, menu, table="d", max_states=2_000_000, columns=None, roles=None, key_extra=None):
         self.menu = menu
+        # optional refinement of the state key by something the *history* says (e.g. the final order_rows
+        # request): two histories the builder maps to the same pipeline are then kept apart, so that a check
+        # whose oracle reads the history judges both (a builder that wrongly simplifies one history into a
+        # pipeline another history legitimately produces would otherwise be merged away)
+        self.key_extra = key_extra
         self.table = table
         self.init_columns = columns  # optional: start from a table description with other columns
         self.init_roles = roles
@@ -73,9 +78,12 @@ class Explorer:
                 nroles = {c: nroles.get(c, "n") for c in ncols}
             else:
                 ncols = list(nops.column_names)
-            key = hashlib.sha1(H.canon(nops).encode()).hexdigest()
             nh = dict(s.hist)
             nh["steps"] = s.hist["steps"] + [step]
+            ck = H.canon(nops)
+            if self.key_extra is not None:
+                ck = ck + "|" + self.key_extra(nh)
+            key = hashlib.sha1(ck.encode()).hexdigest()
             ns = State(nh, nops, ncols, nroles, key, s.depth + 1, s.prefixes + [nops], s.rstates + [(ncols, nroles)])
             yield step, ns, None
 
